@@ -275,6 +275,9 @@ def gen_not(rng, vocab, dirs):
         (d + '/{' + n + '/**,' + n + '}', 'sometimes'), ('{' + d + ',' + n + '}/{**,' + n + '}', 'sometimes'),
         ('<' + d + '/{**,' + n + '}:1>', 'sometimes'), (d + '/{*/**,*}', 'sometimes'), ('**/' + d + '/{' + n + '/**,*.txt}', 'sometimes'),
         ('{' + d + '/{**,' + n + '},*.md}', 'sometimes'),
+        # a repetition that is the WHOLE pattern or a whole alternative (into_non_trivial looks at exactly these)
+        ('<?:1,>', 'nonexh'), ('<[!.]:1,>', 'nonexh'), ('{<?:1,>,%s}' % n, 'nonexh'), ('<%s/**:1,>' % d, 'exh'), ('<?:1>', 'nonexh'), ('<?:2,>', 'nonexh'),
+        ('{<%s:1,>}' % n, 'nonexh'), ('<<?:1,>:1>', 'nonexh'),
         # rooted patterns never match a root-relative path
         ('/**', 'rooted'), ('/' + d + '/**', 'rooted'), ('{/**,%s}' % n, 'rooted-mixed'), ('/**/' + n, 'rooted'),
     ]
